@@ -59,11 +59,12 @@ class Variables:
         self._variables.pop(name)
 
     def inline_variables(self, sql: str) -> str:
-        for name, value in self._variables.items():
-            sql = re.sub(rf"\${name}", value, sql, flags=re.IGNORECASE)
+        # substitute each $name reference in a single pass by looking up exactly that name, so a variable
+        # whose name is a prefix of another (eg: $var1 vs $var10) or whose value contains a $ can't interfere
+        def value(reference: re.Match) -> str:
+            name = reference.group(1).upper()
+            if name not in self._variables:
+                raise snowflake.connector.errors.ProgrammingError(msg=f"Session variable '${name}' does not exist")
+            return self._variables[name]
 
-        if remaining_variables := re.search(r"(?<!\$)\$\w+", sql):
-            raise snowflake.connector.errors.ProgrammingError(
-                msg=f"Session variable '{remaining_variables.group().upper()}' does not exist"
-            )
-        return sql
+        return re.sub(r"(?<!\$)\$(\w+)", value, sql)
